@@ -14,6 +14,7 @@ import (
 	"io/ioutil"
 	"sort"
 	"strings"
+	"sync"
 	"time"
 
 	"github.com/logrange/logrange/api"
@@ -41,6 +42,18 @@ type Step struct {
 	Wait  bool    `json:"w,omitempty"`   // WaitTimeout = 1 (the server caches the cursor)
 	Rpc   bool    `json:"rpc,omitempty"` // through the RPC querier instead of backend.Querier
 	Apps  []Batch `json:"a,omitempty"`   // appended before the page
+	// Pre: a request sent before the page of this step (after its appends), judged by the oracle alone:
+	//   badpos:<text>   the current ReqId with a Pos that does not parse (the request must fail; a cached cursor of the
+	//                   query is dropped by it: the model sees the page that follows as one after an eviction)
+	//   badpos0:<text>  the same without ReqId
+	//   otherquery      the current ReqId and Pos with another query text (ApplyState refuses: the server answers from a
+	//                   new cursor under a new id, the cached one stays as it is)
+	//   nosource        a query whose FROM matches no partition: an empty page whose NextQueryRequest is still that query
+	//   nosourcewait    the same with WaitTimeout=1: the request comes back empty when the second is over
+	Pre string `json:"pre,omitempty"`
+	// Wake: the request is sent first (WaitTimeout 60) and waits at the end of the data; Apps (one event) are written
+	// while it waits; for the model this is the page after the append
+	Wake bool `json:"wake,omitempty"`
 }
 
 type Filter struct {
@@ -59,6 +72,10 @@ type Replay struct {
 	Steps []Step      `json:"steps"`
 	Bulk  int         `json:"bulk,omitempty"`   // that many more events "k", ts 5000+i, written to partition 0 after Init
 	Sel   *SelectSpec `json:"select,omitempty"` // read through api.Select instead of the scripted steps
+	// Post: run after the script, judged by the oracle alone. "late-partition[:rpc]": a request with WaitTimeout=1 over a
+	// source that matches no partition (it must come back empty when the time is over, not before, still naming the
+	// query); then the partition is created and the CHAINED request must deliver its events
+	Post string `json:"post,omitempty"`
 }
 
 // ---------------------------------------------------------------------------- reference state of one run
@@ -93,6 +110,10 @@ type runner struct {
 	pages   []pageObs
 	st0     string
 	first   []int // per partition: index of the first record the whole read covers
+	startS  string            // the Pos string of the first request (rp.Start, or what an @-start resolved to)
+	startG  string            // the same as a Gallina pos_t
+	kindOv  map[int]string    // per step: the model's kind when it differs from the script's (after a badpos prelude)
+	pres    map[string]int    // distribution of the preludes
 	aborted bool  // a query failed: reported through the oracle, the script stops
 	hung    bool  // a query did not return: the server is left behind (its Stop could block)
 	// distribution
@@ -428,11 +449,19 @@ func (r *runner) doQuery0(req *api.QueryRequest, rpc bool) (*api.QueryResult, er
 
 // page runs one step: appends, the request built from the resume kind, the observation, the page-level oracle
 func (r *runner) page(st Step, cur, prev *api.QueryRequest) (used *api.QueryRequest, next *api.QueryRequest, err error) {
-	apps, err := r.applyAppends(st.Apps)
-	if err != nil {
-		return nil, nil, err
+	var apps []string
+	if !st.Wake {
+		apps, err = r.applyAppends(st.Apps)
+		if err != nil {
+			return nil, nil, err
+		}
 	}
 	r.coqApps = append(r.coqApps, apps)
+	if st.Pre != "" {
+		if err := r.prelude(st, cur); err != nil {
+			return nil, nil, err
+		}
+	}
 	wt := 0
 	if st.Wait {
 		wt = 1
@@ -458,6 +487,9 @@ func (r *runner) page(st Step, cur, prev *api.QueryRequest) (used *api.QueryRequ
 	}
 	req.Limit = int(st.Limit)
 	req.WaitTimeout = wt
+	if st.Wake {
+		req.WaitTimeout = 60
+	}
 	req.Offset = 0
 	res, err := r.exec(st, req)
 	if err != nil {
@@ -477,8 +509,23 @@ func (r *runner) exec(st Step, req api.QueryRequest) (*api.QueryResult, error) {
 	if lim > 10000 {
 		lim = 10000
 	}
+	var res *api.QueryResult
+	if st.Wake {
+		var apps []string
+		res, apps, err = r.wakeQuery(&req, st)
+		if r.aborted {
+			// a verdict (reported through r.fail): the script stops here
+			r.coqApps = r.coqApps[:len(r.coqApps)-1]
+			return &api.QueryResult{NextQueryRequest: req}, nil
+		}
+		if err != nil {
+			return nil, err
+		}
+		r.coqApps[len(r.coqApps)-1] = apps
+	} else {
+		res, err = r.doQuery(&req, st.Rpc)
+	}
 	want := r.expected(start, lim)
-	res, err := r.doQuery(&req, st.Rpc)
 	if err != nil {
 		// the implementation refused or failed a well-formed request: a verdict, not a harness failure
 		cls := "query-error"
@@ -598,6 +645,283 @@ func (r *runner) exec(st Step, req api.QueryRequest) (*api.QueryResult, error) {
 	return &out, nil
 }
 
+// prelude: a request outside the model's script, judged by the oracle (see Step.Pre)
+func (r *runner) prelude(st Step, cur *api.QueryRequest) error {
+	kind, arg := st.Pre, ""
+	if i := strings.Index(st.Pre, ":"); i >= 0 {
+		kind, arg = st.Pre[:i], st.Pre[i+1:]
+	}
+	if r.pres == nil {
+		r.pres = map[string]int{}
+	}
+	r.pres[kind]++
+	step := len(r.coqApps) - 1
+	switch kind {
+	case "badpos", "badpos0":
+		req := api.QueryRequest{ReqId: cur.ReqId, Query: cur.Query, Pos: arg, Limit: 3}
+		if kind == "badpos0" {
+			req.ReqId = 0
+		}
+		wasCached := req.ReqId != 0 && cursor.VC03Cached(r.srv.Provider, req.ReqId)
+		res, err := r.doQuery(&req, st.Rpc)
+		if err == errHang {
+			r.fail("query-hang", fmt.Sprintf("step %d: request with Pos %q", step+1, arg))
+			r.aborted = true
+			return nil
+		}
+		if err == nil {
+			r.fail("bad-pos-accepted", fmt.Sprintf("step %d: the request with Pos %q was answered (%d events, next Pos %q) instead of refused", step+1, arg, len(res.Events), res.NextQueryRequest.Pos))
+		}
+		if wasCached {
+			// the cached cursor of this query stood elsewhere: it was dropped, and the failed request left nothing behind
+			if cursor.VC03Cached(r.srv.Provider, req.ReqId) {
+				r.fail("bad-pos-left-cursor", fmt.Sprintf("step %d: after the refused request with Pos %q a cursor is cached under id %d", step+1, arg, req.ReqId))
+			}
+			if st.Kind == "same" {
+				if r.kindOv == nil {
+					r.kindOv = map[int]string{}
+				}
+				r.kindOv[step] = "REvict"
+			}
+		}
+	case "otherquery":
+		oflt := Filter{Needle: "k"}
+		if r.rp.Flt.Needle != "" {
+			oflt = Filter{}
+		}
+		req := api.QueryRequest{ReqId: cur.ReqId, Query: oflt.query(), Pos: cur.Pos, Limit: 3}
+		wasCached := req.ReqId != 0 && cursor.VC03Cached(r.srv.Provider, req.ReqId)
+		start, err := r.startIdx(req.Pos)
+		if err != nil {
+			return err
+		}
+		save := r.rp.Flt
+		r.rp.Flt = oflt
+		want := r.expected(start, 3)
+		r.rp.Flt = save
+		res, err := r.doQuery(&req, st.Rpc)
+		if err != nil {
+			r.fail("query-error", fmt.Sprintf("step %d: the current ReqId with another query: %v", step+1, err))
+			if err == errHang {
+				r.aborted = true
+			}
+			return nil
+		}
+		ok := len(res.Events) == len(want)
+		for i := 0; ok && i < len(want); i++ {
+			e := res.Events[i]
+			if e.Timestamp != want[i].e.Ts || e.Message != want[i].e.Msg || e.Fields != want[i].e.Flds || e.Tags != r.parts[want[i].part].tags {
+				ok = false
+			}
+		}
+		if !ok {
+			r.fail("other-query-page", fmt.Sprintf("step %d: ReqId %d (cached=%v) with the query %q from %q: got %s want %s", step+1, req.ReqId, wasCached, req.Query, req.Pos, showGot(res.Events), showWant(want)))
+		}
+		if wasCached && (res.NextQueryRequest.ReqId == req.ReqId || !cursor.VC03Cached(r.srv.Provider, req.ReqId)) {
+			r.fail("other-query-took-cursor", fmt.Sprintf("step %d: the request with another query came back with ReqId %d; cursor %d still cached: %v", step+1, res.NextQueryRequest.ReqId, req.ReqId, cursor.VC03Cached(r.srv.Provider, req.ReqId)))
+		}
+	case "nosource", "nosourcewait":
+		q := "SELECT FROM c=nosuchpartition LIMIT 100000"
+		req := api.QueryRequest{Query: q, Pos: arg, Limit: 3}
+		if kind == "nosourcewait" {
+			req.WaitTimeout = 1
+		}
+		t0 := time.Now()
+		res, err := r.doQuery(&req, st.Rpc)
+		if err != nil {
+			cls := "query-error"
+			if err == errHang {
+				cls = "query-hang"
+				r.aborted = true
+			}
+			r.fail(cls, fmt.Sprintf("step %d: a query over no partition (WaitTimeout=%d): %v", step+1, req.WaitTimeout, err))
+			return nil
+		}
+		if kind == "nosourcewait" && time.Since(t0) < 900*time.Millisecond {
+			r.fail("no-source-wait-early", fmt.Sprintf("step %d: a query with WaitTimeout=1 over no partition came back after %v", step+1, time.Since(t0)))
+		}
+		if len(res.Events) != 0 {
+			r.fail("no-source-events", fmt.Sprintf("step %d: a query over no partition delivered %s", step+1, showGot(res.Events)))
+		}
+		if res.NextQueryRequest.Query != q {
+			r.fail("no-source-next-request", fmt.Sprintf("step %d: the NextQueryRequest of a query over no partition carries the query %q instead of %q (a client that chains it reads something else)", step+1, res.NextQueryRequest.Query, q))
+		}
+	default:
+		return fmt.Errorf("unknown prelude %q", st.Pre)
+	}
+	return nil
+}
+
+// ---- requests woken by an append: the schedule hook of pkg/cursor reports a request that is about to sleep in
+// WaitNewData (one call per partition of the cursor); the hook is process-wide, the cases run in parallel: waiters are
+// keyed by the journal name
+var wakeMu sync.Mutex
+var wakeCh = map[string]chan struct{}{}
+
+func c03Hook(point, src string) {
+	if point != "wait-new-data" {
+		return
+	}
+	wakeMu.Lock()
+	ch := wakeCh[src]
+	wakeMu.Unlock()
+	if ch != nil {
+		select {
+		case ch <- struct{}{}:
+		default:
+		}
+	}
+}
+
+// wakeQuery sends the request, waits until it sleeps at the end of the data of every partition, writes st.Apps and
+// returns the answer together with the Gallina appends
+func (r *runner) wakeQuery(req *api.QueryRequest, st Step) (*api.QueryResult, []string, error) {
+	chs := make([]chan struct{}, len(r.parts))
+	wakeMu.Lock()
+	for i, pr := range r.parts {
+		chs[i] = make(chan struct{}, 4)
+		wakeCh[pr.src] = chs[i]
+	}
+	wakeMu.Unlock()
+	defer func() {
+		wakeMu.Lock()
+		for _, pr := range r.parts {
+			delete(wakeCh, pr.src)
+		}
+		wakeMu.Unlock()
+	}()
+	type out struct {
+		res *api.QueryResult
+		err error
+	}
+	done := make(chan out, 1)
+	go func() {
+		// (through backend.Querier: the RPC server serves the requests of one connection one after the other, the
+		// harness's write over the same client connection would wait behind the sleeping query)
+		res, err := r.doQuery0(req, false)
+		done <- out{res, err}
+	}()
+	deadline := time.After(30 * time.Second)
+	for i := range chs {
+		select {
+		case <-chs[i]:
+		case o := <-done:
+			if o.err == nil {
+				r.fail("wait-returned-early", fmt.Sprintf("page %d: the request with WaitTimeout=60 at the end of the data (pos %q) came back with %d events before anything was written", len(r.pages)+1, req.Pos, len(o.res.Events)))
+			} else {
+				r.fail("query-error", fmt.Sprintf("page %d (waiting request, pos %q): %v", len(r.pages)+1, req.Pos, o.err))
+			}
+			r.aborted = true
+			return nil, nil, nil
+		case <-deadline:
+			r.fail("query-hang", fmt.Sprintf("page %d: the request with WaitTimeout=60 (pos %q) neither returned nor went to sleep within 30s", len(r.pages)+1, req.Pos))
+			r.aborted, r.hung = true, true
+			return nil, nil, nil
+		}
+	}
+	apps, err := r.applyAppends(st.Apps)
+	if err != nil {
+		return nil, nil, err
+	}
+	select {
+	case o := <-done:
+		if o.err != nil {
+			r.fail("query-error", fmt.Sprintf("page %d (woken request, pos %q): %v", len(r.pages)+1, req.Pos, o.err))
+			r.aborted = true
+			return nil, apps, nil
+		}
+		return o.res, apps, nil
+	case <-time.After(30 * time.Second):
+		r.fail("query-hang", fmt.Sprintf("page %d: the waiting request (pos %q) did not return within 30s after %d events were appended and readable", len(r.pages)+1, req.Pos, len(st.Apps)))
+		r.aborted, r.hung = true, true
+		return nil, apps, nil
+	}
+}
+
+// latePartition: see Replay.Post
+func (r *runner) latePartition(rpc bool) error {
+	const tags = "c=late,p=0"
+	q := "SELECT FROM c=late LIMIT 100000"
+	req := api.QueryRequest{Query: q, Pos: "tail", Limit: 10, WaitTimeout: 1}
+	t0 := time.Now()
+	res, err := r.doQuery(&req, rpc)
+	if err != nil {
+		cls := "query-error"
+		if err == errHang {
+			cls = "query-hang"
+		}
+		r.fail(cls, fmt.Sprintf("post: a query with WaitTimeout=1 over a source that matches no partition: %v", err))
+		return nil
+	}
+	if time.Since(t0) < 900*time.Millisecond {
+		r.fail("no-source-wait-early", fmt.Sprintf("post: a query with WaitTimeout=1 over no partition came back after %v", time.Since(t0)))
+	}
+	if len(res.Events) != 0 {
+		r.fail("no-source-events", fmt.Sprintf("post: a query over no partition delivered %s", showGot(res.Events)))
+	}
+	next := res.NextQueryRequest
+	if next.Query != q {
+		r.fail("no-source-next-request", fmt.Sprintf("post: the NextQueryRequest of a query over no partition carries the query %q instead of %q", next.Query, q))
+		return nil
+	}
+	// the partition comes into being
+	evs := []*api.LogEvent{{Timestamp: 900001, Message: "late1"}, {Timestamp: 900002, Message: "late2", Fields: "a=b"}, {Timestamp: 900003, Message: "late3"}}
+	var wr api.WriteResult
+	if err := r.srv.Client.Write(context.Background(), tags, "", evs, &wr); err != nil {
+		return err
+	}
+	if wr.Err != nil {
+		return wr.Err
+	}
+	var lerr error
+	ok := WaitFor(30*time.Second, func() bool {
+		js, err := r.srv.Partitions.GetJournals(context.Background(), nil, 50)
+		if err != nil {
+			lerr = err
+			return true
+		}
+		n := 0
+		for tl, j := range js {
+			if string(tl) == tags {
+				cks, _ := j.Chunks().Chunks(context.Background())
+				for _, c := range cks {
+					n += int(c.Count())
+				}
+			}
+			r.srv.Partitions.Release(j.Name())
+		}
+		return n == len(evs)
+	})
+	if lerr != nil {
+		return lerr
+	}
+	if !ok {
+		return fmt.Errorf("the late partition did not become readable within 30s")
+	}
+	// the chained request reads it
+	next.Limit, next.WaitTimeout = 10, 0
+	res, err = r.doQuery(&next, rpc)
+	if err != nil {
+		cls := "query-error"
+		if err == errHang {
+			cls = "query-hang"
+		}
+		r.fail(cls, fmt.Sprintf("post: the chained request %+v of a no-source answer: %v", next, err))
+		return nil
+	}
+	same := len(res.Events) == len(evs)
+	for i := 0; same && i < len(evs); i++ {
+		g := res.Events[i]
+		if g.Tags != tags || g.Timestamp != evs[i].Timestamp || g.Message != evs[i].Message || g.Fields != evs[i].Fields {
+			same = false
+		}
+	}
+	if !same {
+		r.fail("no-source-chain-lost", fmt.Sprintf("post: the partition %s was created after the empty answer; the chained request (query %q, pos %q) delivered %s instead of its %d events", tags, next.Query, next.Pos, showGot(res.Events), len(evs)))
+	}
+	return nil
+}
+
 func showGot(evs []*api.LogEvent) string {
 	var sb strings.Builder
 	for _, e := range evs {
@@ -679,8 +1003,10 @@ func (r *runner) chainOracle() {
 		}
 	}
 	// (one request returns at most QueryMaxLimit events: the comparison needs a store that fits)
-	if finished && strings.ToLower(r.rp.Start) != "tail" && nmatch < 10000 {
-		res, err := r.doQuery(&api.QueryRequest{Query: r.rp.Flt.query(), Pos: r.rp.Start, Limit: 10000}, true)
+	// (a read that starts behind the data - tail, @past - has no single-read counterpart: a later request from that
+	// position starts behind what was appended meanwhile)
+	if finished && strings.ToLower(r.rp.Start) != "tail" && r.rp.Start != "@past" && nmatch < 10000 {
+		res, err := r.doQuery(&api.QueryRequest{Query: r.rp.Flt.query(), Pos: r.startS, Limit: 10000}, true)
 		if err != nil {
 			r.fail("single-read-failed", err.Error())
 			return
@@ -706,6 +1032,7 @@ func (r *runner) startIdxAtFirst() ([]int, error) { return r.first, nil }
 func main() {
 	Main("C03", "C03K", func(c *Ctx) error {
 		if c.Replay != nil {
+			cursor.VC11SetHook(c03Hook)
 			var rp Replay
 			if err := FromJSON(c.Replay, &rp); err != nil {
 				return err
@@ -717,10 +1044,16 @@ func main() {
 			c.Add(*cs)
 			return c.Finish(rule)
 		}
-		c.ShardSize = 60 // several shards, evaluated in parallel by the driver
+		cursor.VC11SetHook(c03Hook)
+		c.ShardSize = 45 // several shards, evaluated in parallel by the driver
 		var jobs []job
+		var bulk []job // the 10500-event case takes the model ~10 s: it goes last, into the smallest shard
 		for _, rp := range corpus() {
 			rp := rp
+			if rp.Bulk > 0 {
+				bulk = append(bulk, job{rp: &rp})
+				continue
+			}
 			jobs = append(jobs, job{rp: &rp})
 		}
 		for _, rp := range emptyFirst() {
@@ -728,6 +1061,10 @@ func main() {
 			jobs = append(jobs, job{rp: &rp})
 		}
 		for _, rp := range rangeGrow() {
+			rp := rp
+			jobs = append(jobs, job{rp: &rp})
+		}
+		for _, rp := range resumePaths() {
 			rp := rp
 			jobs = append(jobs, job{rp: &rp})
 		}
@@ -744,7 +1081,8 @@ func main() {
 		// (NewRng(seed) of common is an arithmetic progression in the seed: the streams of seed s and s+1 are
 		// shifted copies of one another. Scramble the seed first so that different seeds give different cases.)
 		root := NewRng(mix64(c.Seed))
-		n := c.N(380)
+		// quick tier: 200 generated cases after the ~140 deterministic ones; the volume is in the thorough tier
+		n := c.N(200)
 		if n > 900 {
 			// every in-process server leaves the descriptors of its chunk writers open (the journal controller
 			// has no Shutdown, see C07): stay well below RLIMIT_NOFILE; the thorough tier uses more seeds instead
@@ -753,6 +1091,7 @@ func main() {
 		for i := 0; i < n; i++ {
 			jobs = append(jobs, job{gen: root.Fork()})
 		}
+		jobs = append(bulk, jobs...) // (run first: writing its events takes the harness a few seconds)
 		res := make([]*Case, len(jobs))
 		errs := make([]error, len(jobs))
 		Parallel(len(jobs), 12, func(i int) {
@@ -768,6 +1107,11 @@ func main() {
 			if errs[i] != nil {
 				return fmt.Errorf("case %d: %v", i, errs[i])
 			}
+		}
+		for i := len(bulk); i < len(jobs); i++ {
+			c.Add(*res[i])
+		}
+		for i := 0; i < len(bulk); i++ {
 			c.Add(*res[i])
 		}
 		if fds, err := ioutil.ReadDir("/proc/self/fd"); err == nil {
